@@ -94,6 +94,9 @@ type rtpDownTrack struct {
 	stats          *receiverStats
 	atomics        *downTrackAtomics
 	cname          atomic.Value
+	// layerMu serialises updates of the layer info, which are
+	// read-modify-write sequences done from multiple goroutines
+	layerMu sync.Mutex
 }
 
 func (down *rtpDownTrack) SetTimeOffset(ntp uint64, rtp uint32) {
@@ -231,6 +234,7 @@ func (down *rtpDownTrack) Write(buf []byte) (int, error) {
 		return 0, err
 	}
 
+	down.layerMu.Lock()
 	layer := down.getLayerInfo()
 
 	if flags.Tid > layer.maxTid || flags.Sid > layer.maxSid {
@@ -251,7 +255,7 @@ func (down *rtpDownTrack) Write(buf []byte) (int, error) {
 			layer.maxSid = flags.Sid
 		}
 		down.setLayerInfo(layer)
-		down.adjustLayer()
+		down.adjustLayerLocked()
 		layer = down.getLayerInfo()
 	}
 
@@ -268,13 +272,19 @@ func (down *rtpDownTrack) Write(buf []byte) (int, error) {
 		}
 	}
 
+	requestKeyframe := false
 	if flags.Start && (layer.sid != layer.wantedSid) {
 		if flags.Keyframe {
 			layer.sid = layer.wantedSid
 			down.setLayerInfo(layer)
 		} else {
-			down.remote.RequestKeyframe()
+			requestKeyframe = true
 		}
+	}
+	down.layerMu.Unlock()
+
+	if requestKeyframe {
+		down.remote.RequestKeyframe()
 	}
 
 	if flags.Tid > layer.tid || flags.Sid > layer.sid ||
@@ -336,6 +346,13 @@ func (t *rtpDownTrack) GetMaxBitrate() (uint64, int, int) {
 // adjusts the layer by one step.  It prefers temporal layers, and only
 // uses spatial layers as a last resort.
 func (t *rtpDownTrack) adjustLayer() {
+	t.layerMu.Lock()
+	defer t.layerMu.Unlock()
+	t.adjustLayerLocked()
+}
+
+// called with layerMu taken
+func (t *rtpDownTrack) adjustLayerLocked() {
 	max, _, _ := t.GetMaxBitrate()
 	r, _ := t.rate.Estimate()
 	rate := uint64(r) * 8
